@@ -17,6 +17,15 @@ Ltac break_if :=
   end.
 Ltac break_ifs := repeat (break_if; psimpl).
 
+(* case analysis along the sequential address tests of apu_bus_write / apu_bus_read *)
+Ltac addr_chain :=
+  unfold apu_bus_write;
+  repeat match goal with
+         | |- context [if ?a =? ?k then _ else _] => destruct (N.eqb_spec a k); [subst a|]
+         end.
+
+Definition is_on (s : apu) : bool := ctOn (ctl s).
+
 (* ------------------------------------------------------------------------------------------------- *)
 (* the part of the state that register reads NR10-NR51 depend on *)
 Definition sq_view (c : square) := (sqDuty c, sqInitVol c, sqEnvInc c, sqEnvSweep c, sqLenEn c).
@@ -172,3 +181,10 @@ Lemma ns_view_trig_len n l o : ns_view (ns_trig_len n l o) = ns_view n.
 Proof. unfold ns_trig_len, ns_view. break_ifs; congruence. Qed.
 Lemma ns_view_trigger n : ns_view (ns_trigger n) = ns_view n.
 Proof. unfold ns_trigger, ns_view. psimpl. break_ifs; congruence. Qed.
+
+Lemma ctl_of_view (x y : apu) : apu_view x = apu_view y -> ctl x = ctl y.
+Proof. unfold apu_view. intros H. inversion H. reflexivity. Qed.
+Lemma ctl_tick_clock s : ctl (fst (apu_tick_clock s)) = ctl s.
+Proof. exact (ctl_of_view _ _ (view_tick_clock s)). Qed.
+Lemma ctl_end_cycle s : ctl (fst (apu_end_machine_cycle s)) = ctl s.
+Proof. exact (ctl_of_view _ _ (view_end_cycle s)). Qed.
